@@ -166,6 +166,8 @@ func Convert(value any, typ reflect.Type) (any, error) { //nolint: gocyclo
 			return nil, conversionError("", value, typ)
 		}
 		for _, key := range rv.MapKeys() {
+			// look the entry up with its own key, before the key is converted to the target's key type
+			ev := rv.MapIndex(key)
 			if typ.Key().Kind() == reflect.String {
 				key = reflect.ValueOf(fmt.Sprint(key))
 			}
@@ -173,7 +175,6 @@ func Convert(value any, typ reflect.Type) (any, error) { //nolint: gocyclo
 				return nil, conversionError("map key", key, typ.Key())
 			}
 			key = key.Convert(typ.Key())
-			ev := rv.MapIndex(key)
 			if et.Kind() == reflect.String {
 				ev = reflect.ValueOf(fmt.Sprint(ev))
 			}
